@@ -33,7 +33,7 @@ def fill(chk, NA):
         "symbolic fault schedule (z3 Int index + mode) over the real code on a real file system", "DESIGN.md §3 C14", engine="symlen+fs-injector")
     chk("C15", "model_checking",
         "API layer: formatter replaced by recording stubs (uninterpreted), width a z3 Int and all switches z3 Bools flowing through the real reformat_text/file/files; z3 decides captured argument == option. "
-        "CLI layer: flags chosen under solver forks (enumeration), real main() end to end, bytes compared with reformat_text.",
+        "Several-files cases include the same file named twice under another spelling (three arguments, three results). CLI layer: flags chosen under solver forks (enumeration), real main() end to end, bytes compared with reformat_text.",
         "Formatter treated as a function of its arguments in symbolic mode; replay uses no stubs (option-sensitive document, byte comparison). --width values concrete {absent,0,1,40,120}. `-o file` with one input file is unspecified by the property and not checked.",
         "symbolic pass-through checking with uninterpreted formatter + enumerated argv", "DESIGN.md §3 C15")
     chk("C16", "model_checking",
@@ -67,13 +67,13 @@ def fill(chk, NA):
         A12 + " Only the well-formedness half of the property is decided; the timing half is declined (see DESIGN.md).", "dynamic symbolic execution; exceptions on feasible paths are replayed and reported", "DESIGN.md §3 C12")
     chk("C17", "model_checking",
         "Real FileResolver.resolve on a real temp tree materialised per path from solver-chosen presence bits of a 13-entry skeleton (nested dirs, default/user-excluded dirs, ignore file, links to a file inside / "
-        "in an excluded dir / outside, link to a dir), with three file sizes and the size limit as unbounded z3 Ints (injected through Path.stat and the config) and five settings bits; 11 argument sets. "
+        "in an excluded dir / outside, link to a dir), with three file sizes and the size limit as unbounded z3 Ints (injected through Path.stat and the config) and five settings bits; 12 argument sets (incl. a directory argument below a directory pruned by an earlier argument's walk). "
         "Result must be absolute, sorted, unique, equal to a reference computed from the tree specification, and invariant under argument reversal and reversed listing order.",
         "Bound = the skeleton and the argument sets; presence/setting bits are enumerated by solver forks, the size/limit order relations are decided symbolically; replay materialises the tree with real sizes. gitignore handling is C18's subject (no .gitignore in this tree).",
         "symbolic tree (bits + Int sizes) through the real resolver on a real file system vs reference walk of the specification", "DESIGN.md §3 C17", engine="symlen+tmp-tree")
     chk("C18", "translation_validation",
         "The strings the real traversal hands to pathspec are obtained by tracing _walk_directory on a marker tree (regenerated every run) and turned into templates over symbolic path components; pathspec's compiled "
-        "regexes for each .gitignore of a bounded grammar are translated into z3 regexes; z3 searches components on which 'some traced call says ignored' differs from gitignore semantics on the path relative to the "
+        "regexes for each .gitignore of a bounded grammar are translated into z3 regexes; A third trace (one resolver, two overlapping traversal roots) yields the calls an inner walk makes on a .gitignore above its own root (none on a correct tree; otherwise z3 finds hidden names and git rooted at the inner directory is the replay oracle). z3 searches components on which 'some traced call says ignored' differs from gitignore semantics on the path relative to the "
         "file's directory. Every model is replayed against real `git check-ignore` and FileResolver.resolve; the reference formula itself is checked against git on every replayed model.",
         "Bound: two directory levels, components [abx]{1,3}, file [abx]{1,3}.md, one- and two-line .gitignore files from the listed grammar, at the root or one level down. pathspec's regexes are trusted only as far as "
         "the git replay confirms them. Core excludes files, global excludes and .git/info/exclude are outside the claim.",
